@@ -91,6 +91,9 @@ def check(case) -> core.Out:
             for it in items:
                 off += len(it["b"])
                 if it["p"] != "noise" and (S.proto_of(bytes(it["b"])) & opts.get("protfilter", 7)):
+                    if not opts.get("parsing", True):
+                        ends.append(off)  # nothing is parsed: every framed message is delivered
+                        continue
                     v, _r = S.direct_parse(bytes(it["b"]), opts)
                     if v == "foreign":
                         out.classes = ["skipped:dependency-foreign-exception"]
@@ -165,6 +168,27 @@ def run_shard(spec, ctx, acc):
         lambda t: {"kind": "cuts", "items": t[0], "opts": t[1], "clean": True})
     garb = st.tuples(streams.garbage_streams(6 if quick else 12).filter(lambda it: small(it, cap)), OPTS).map(
         lambda t: {"kind": "cuts", "items": t[0], "opts": t[1], "clean": False})
+    import hashlib
+
+    @st.composite
+    def blockcase(draw):
+        n = draw(st.sampled_from([4094, 5000, 8190, 9000, 12286]))
+        big = streams.item("ubx", S.codec.ubx_frame(b"\x0c\x10", b"", b"")[:0] or
+                           S.codec.ubx_frame(b"\x0c", b"\x10", hashlib.shake_256(bytes([n & 0xFF])).digest(n)), "len>=256")
+        pre = draw(streams.ubx_items())
+        post = draw(streams.ubx_items())
+        items = [pre, big, post]
+        start = len(pre["b"])
+        cuts = sorted({start + 6 + m * 4096 + d for m in range(0, 4) for d in (-2, -1, 0, 1, 2)
+                       if 0 <= start + 6 + m * 4096 + d <= start + len(big["b"])} |
+                      {draw(st.integers(0, start + len(big["b"]) + len(post["b"]))) for _ in range(12)} |
+                      {start + len(big["b"]) - 1, start + len(big["b"]), start + len(big["b"]) + 1})
+        o = draw(OPTS)
+        o = dict(o, validate=draw(st.sampled_from([1, 0, 0])), parsing=draw(st.sampled_from([True, False])))
+        return {"kind": "cuts", "items": items, "opts": o, "clean": True, "cuts": cuts}
+
+    core.hyp_search(acc, blockcase(), check, seed=core.derive(ctx["seed"], PROP, "b", spec["part"]),
+                    max_examples=4 if quick else 60, known=known, rounds=2, shrink=False)
     core.hyp_search(acc, clean, check, seed=core.derive(ctx["seed"], PROP, "c", spec["part"]),
                     max_examples=45 if quick else 600, known=known, rounds=2, shrink=not quick)
     core.hyp_search(acc, garb, check, seed=core.derive(ctx["seed"], PROP, "g", spec["part"]),
